@@ -220,6 +220,8 @@ def run_shard(spec):
                     acc["counters"].get("many-node-forests", 0) + 1
             else:
                 cfg = gen.random_config(rng, p3d=0.15, extras=False)
+                if r0 > 0.85:
+                    cfg.seg, cfg.id_kind, cfg.pos_mode = False, "zero", "single"
                 cfg.T = rng.randint(2, 6)
                 cfg.max_per_frame = rng.choice([1, 2, 2, 3])
                 cfg.skip_prob = rng.choice([0, 0.2, 0.5])
